@@ -157,14 +157,18 @@ func (c *checkCtx) runFuncs(u Unit) {
 			res[i] = fr
 			x := sym.NewExec(c.prog.Prog, c.prog.Specs)
 			t0 := time.Now()
-			if strings.HasPrefix(name, "lemma:") {
+			if strings.HasPrefix(name, "lemma:") || strings.HasPrefix(name, "writers:") {
 				path := load.ModulePath + "/" + u.Pkg
 				db := c.prog.Specs[path]
 				if db == nil || db.Funcs[name] == nil || c.prog.Pkgs[path] == nil {
 					fr.Report = &sym.FuncReport{Func: fr.Name, Error: "lemma not found in the contract files"}
 					return
 				}
-				fr.Report = x.VerifyLemma(c.prog.Pkgs[path], db.Funcs[name])
+				if strings.HasPrefix(name, "writers:") {
+					fr.Report = x.VerifyWriters(c.prog.Pkgs[path], db.Funcs[name])
+				} else {
+					fr.Report = x.VerifyLemma(c.prog.Pkgs[path], db.Funcs[name])
+				}
 			} else {
 				fn := c.prog.Func(u.Pkg, name)
 				if fn == nil {
